@@ -5,6 +5,7 @@ regenerated from trimesh/resources/creation.json on every run (Generated/C15Tabl
 -/
 import TrimeshVerif.Proofs.Creation
 import TrimeshVerif.Proofs.RevolveGrid
+import TrimeshVerif.Proofs.RevolveOpen
 import TrimeshVerif.Proofs.Extrude
 namespace TV.C15
 open TV.Query TV.Creation
@@ -116,5 +117,38 @@ example :
     (TV.Extrude.dirEdges cap).Nodup ∧ (∀ e ∈ TV.Extrude.dirEdges cap, e.1 ≠ e.2) ∧
     TV.Extrude.boundary cap = [(0, 1), (1, 2), (2, 3), (3, 0)] ∧ (TV.Extrude.extrude cap).length = 12 := by
   decide
+
+/-- **a partial revolve with caps is closed and consistently wound for every number of sections, every profile
+    length and every cap triangulation**: the profile runs from the axis to the axis (`per ≥ 3` points), the
+    side walls are the triangles `revolve` keeps, `T` is the triangulation of the profile polygon placed on
+    the first section and, shifted by `slices * per` and reversed (`np.fliplr`), on the last one.  The only
+    thing asked of `T` is the decidable condition `capOk`: its directed edges are the polygon boundary in
+    profile order plus interior edges in opposite pairs.  After the copies of the two axis points are merged
+    every directed edge of the surface is matched by its reverse. -/
+theorem C15_revolve_open_closed (per slices : Nat) (hper : 3 ≤ per) (T : List TV.RevolveGrid.Face)
+    (hT : TV.RevolveGrid.capOk (per - 1) T = true) :
+    TV.RevolveGrid.Closed (TV.RevolveGrid.openSurface per slices T) :=
+  TV.RevolveGrid.revolve_open_closed per slices hper T hT
+
+/-- the cap condition in readable form: any triangulation whose directed edges are a reversal-closed multiset
+    of interior edges plus the boundary `0 → 1 → … → n → 0` satisfies it -/
+theorem C15_cap_condition (n : Nat) (T : List TV.RevolveGrid.Face) (h : TV.RevolveGrid.IsCap n T) :
+    TV.RevolveGrid.CapEq n T := h.capEq
+
+/-- the side walls of that theorem are exactly what the index arithmetic of `revolve` produces for a partial
+    turn (`per * (slices + 1)` vertices) when the zero-area triangles at the axis are dropped -/
+theorem C15_revolve_open_grid_is_code (per slices : Nat) (hper : 3 ≤ per) :
+    TV.RevolveGrid.gridFacesO per slices =
+      revolveFaces per slices (per * (slices + 1)) (TV.RevolveGrid.axisKeep per) :=
+  TV.RevolveGrid.gridO_eq_revolveFaces per slices hper
+
+/-- non-vacuity: a fan and a strip triangulation of a five-point profile both meet the cap condition, a
+    triangulation wound the other way does not; the capped half-open surface of two sections is closed -/
+example : TV.RevolveGrid.capOk 4 [(0, 1, 2), (0, 2, 3), (0, 3, 4)] = true
+    ∧ TV.RevolveGrid.capOk 4 [(0, 1, 4), (1, 2, 3), (1, 3, 4)] = true
+    ∧ TV.RevolveGrid.capOk 4 [(2, 1, 0), (3, 2, 0), (4, 3, 0)] = false
+    ∧ TV.RevolveGrid.closedB (TV.RevolveGrid.openSurface 5 2 [(0, 1, 2), (0, 2, 3), (0, 3, 4)]) = true
+    ∧ TV.RevolveGrid.closedB (TV.RevolveGrid.openSurface 5 2 [(2, 1, 0), (3, 2, 0), (4, 3, 0)]) = false := by
+  decide +kernel
 
 end TV.C15
